@@ -288,9 +288,6 @@ class Monitor(object):
             ctx.count('unjudged.bulgarian-no-table')
             return
         timed = ev in J.BG_TIMED
-        if isinstance(perf, str) and not timed:
-            ctx.count('unjudged.bulgarian-mark-form')
-            return
         v = self.grid_value(perf, allow_hms=timed)
         if v is None or (v * 100).denominator != 1:
             ctx.count('unjudged.bulgarian-mark-form')
@@ -580,6 +577,9 @@ def run_bulgarian(mon, ctx, job, rnd):
             attach.call(f, ag, g, ev, v)
         if n % 100 == 0:
             attach.call(f, ag, g, ev, n // 100)
+        if not timed and (n % 3 == 0 or ctx.tier == 'thorough'):
+            # a field mark as text, the form every other scoring function takes as well
+            attach.call(f, ag, g, ev, '%d.%02d' % divmod(n, 100))
         if timed and (n % 3 == 0 or ctx.tier == 'thorough'):
             attach.call(f, ag, g, ev, '%d.%02d' % divmod(n, 100))
             if n >= 6000:
